@@ -1,4 +1,6 @@
 import MobiusModel.News
+import MobiusModel.NewsDeploy
+import MobiusModel.Generated.InitGuard
 /-!
   C18 — Threaded news keeps every article and threads new ones correctly.
 
@@ -589,5 +591,139 @@ theorem old_delete_article_creates_item :
     s0.mem.get [[110]] = none ∧ (deleteArticleOld [[110]] 1 s0).mem.get [[110]] = some ⟨0, AMap.empty⟩ ∧
     ∃ c, ([110], c) ∈ listCats (deleteArticleOld [[110]] 1 s0).mem [] :=
   ⟨by decide, by decide, ⟨⟨0, AMap.empty⟩, (listCats_mem _ _ _ _).mpr (by decide)⟩⟩
+
+/-! ### Wave d: operator steps anywhere in a history; requests through the wire parser -/
+
+/-- "Reloading the news file reproduces the same tree", as a HISTORY theorem: take any history of requests `h`
+    and insert reload steps (SIGHUP, /api/v1/reload, a restart) at arbitrary points (`h'`).  Under the YAML
+    hypothesis, started from a state whose file holds memory, both histories end in the SAME state (memory and
+    file) — hence every later reply is the same.
+
+    Full statement (not proved): the same for every `h`, with the final memories equal up to `next` links.
+    Proved here: for histories in which no reply names a missing parent (`NoOrphan`).  What is missing: such a
+    reply panics after the previously newest article's `next` was overwritten in memory only
+    (`post_panic_harmless`), so a later reload legitimately resets that one link; the statement then needs the
+    congruence of every operation under `SameButNext`, which `reachable_file_matches_memory` gives only for the
+    final state, not for two runs side by side. -/
+theorem reloads_erasable_partial (cd : Codec F) (hrt : cd.RoundTrip) (h h' : List Op) (w : WithReloads h h')
+    (st : State F) (hs : Synced cd st) (hno : NoOrphan cd st h) :
+    run cd st h' = run cd st h := by
+  induction w generalizing st with
+  | nil => rfl
+  | keep o _ ih =>
+    rw [run_cons, run_cons]
+    exact ih _ (step_synced cd hrt st o hs hno.1) hno.2
+  | ins _ ih =>
+    rw [run_cons]
+    show run cd (reload cd st).state _ = _
+    rw [reload_synced cd hrt st hs]
+    exact ih st hs hno
+
+/-- … and at every point in between: the file keeps following memory (so the theorem applies to every prefix). -/
+theorem history_stays_synced (cd : Codec F) (hrt : cd.RoundTrip) (ops : List Op) (st : State F) (hs : Synced cd st)
+    (hno : NoOrphan cd st ops) : (run cd st ops).disk = cd.ser (run cd st ops).mem :=
+  run_synced cd hrt ops st hs hno
+
+/-- every request keeps the file equal to memory, except a reply to a missing parent -/
+theorem request_persists_or_is_orphan_reply (cd : Codec F) (hrt : cd.RoundTrip) (st : State F) (op : Op)
+    (hs : Synced cd st) : Synced cd (step cd st op).state ∨ OrphanReply st op := by
+  by_cases h : OrphanReply st op
+  · exact Or.inr h
+  · exact Or.inl (step_synced cd hrt st op hs h)
+
+/-- THE DEPLOYED BINARY.  On an initialised configuration directory (one that holds `config.yaml`) a start of the
+    binary is a reload of the news file, with or without `-init`: `-init` never replaces the file. -/
+theorem start_is_reload (cd : Codec F) (template : F) (init : Bool) (d : Deploy F) (h : d.initialised = true) :
+    (start cd template init d).state.st = (reload cd d.st).state ∧
+    (start cd template init d).state.st.disk = d.st.disk ∧
+    (start cd template init d).state.initialised = true :=
+  ⟨(start_initialised cd template init d h).1, start_keeps_file cd template init d h, (start_initialised cd template init d h).2.2⟩
+
+/-- the first start with `-init` on a directory that holds nothing: the news are the template's -/
+theorem first_start_gives_template (cd : Codec F) (template : F) (t0 : Tree) (d : Deploy F) (h : d.initialised = false)
+    (ht : cd.deser template = some t0) : start cd template true d = .ok ⟨⟨t0, template⟩, true⟩ :=
+  start_first cd template t0 d h ht
+
+/-- Any deployment history — requests with restarts of the binary (`-init` or not) at arbitrary points — on an
+    initialised directory ends with the news exactly as the requests alone leave them (same hypothesis as
+    `reloads_erasable_partial`). -/
+theorem restarts_erasable_partial (cd : Codec F) (hrt : cd.RoundTrip) (template : F) (ops : List DOp) (d : Deploy F)
+    (hi : d.initialised = true) (hs : Synced cd d.st) (hno : NoOrphan cd d.st (requests ops)) :
+    (drun cd template d ops).st = run cd d.st (requests ops) ∧ (drun cd template d ops).initialised = true := by
+  induction ops generalizing d with
+  | nil => exact ⟨rfl, hi⟩
+  | cons o rest ih =>
+    cases o with
+    | req op =>
+      have := ih ⟨(step cd d.st op).state, d.initialised⟩ hi (step_synced cd hrt d.st op hs hno.1) hno.2
+      simpa [drun, dstep, requests, run] using this
+    | restart i =>
+      have e : dstep cd template d (.restart i) = d := start_synced cd hrt template i d hi hs
+      have := ih d hi hs hno
+      simp only [drun, List.foldl_cons, e]
+      simpa [drun, requests] using this
+
+/-- REQUESTS THROUGH THE WIRE PARSER (C01's round-trip theorem applied to a post): serialise the five fields of a
+    post in ANY order, with a path / id / title / body of any size a field can carry (< 65536 bytes each);
+    `Transaction.Write` returns exactly those fields, and `GetField` hands the handler the path, parent id, title
+    and body that were sent. -/
+theorem post_request_parsed (path idf title body : Bytes) (fs : List Field) (hp : (postRequest path idf title body).Perm fs)
+    (hl : path.length < 65536 ∧ idf.length < 65536 ∧ title.length < 65536 ∧ body.length < 65536)
+    (fl : UInt8) (id : Nat) (hid : id < 4294967296) :
+    Transaction.decode (Transaction.encode ⟨fl, 0, 410, id, 0, fs⟩) = .ok ⟨fl, 0, 410, id, 0, fs⟩ ∧
+    reqField 325 fs = some path ∧ reqField 326 fs = some idf ∧ reqField 328 fs = some title ∧ reqField 333 fs = some body := by
+  have hnd : ((postRequest path idf title body).map (·.ty)).Nodup := by simp [postRequest]
+  have hwf : ∀ f ∈ postRequest path idf title body, f.Scannable := by
+    intro f hf
+    simp only [postRequest, List.mem_cons, List.not_mem_nil, or_false] at hf
+    rcases hf with rfl | rfl | rfl | rfl | rfl <;> simp [Field.Scannable, Field.WF, textPlain] <;> omega
+  have hlen : fs.length = 5 := by rw [← hp.length_eq]; rfl
+  have hsum : (fs.map fun f => 4 + f.data.length).sum = ((postRequest path idf title body).map fun f => 4 + f.data.length).sum :=
+    ((hp.map _).sum_nat).symm
+  refine ⟨?_, ?_, ?_, ?_, ?_⟩
+  · apply Transaction.decode_encode'
+    refine ⟨by show (410 : Nat) < 65536; omega, hid, by show (0 : Nat) < 4294967296; omega, fun f hf => hwf f (hp.mem_iff.mpr hf), by rw [hlen]; decide, ?_⟩
+    show 2 + (fs.map fun f => 4 + f.data.length).sum + 20 < 4294967296
+    rw [hsum]
+    simp [postRequest, textPlain]
+    omega
+  all_goals (rw [reqField_perm _ _ _ hp hnd]; rfl)
+
+-- non-vacuity: a history with a reload in three places; the deployed binary restarted twice; a permuted post
+def histPlain : List Op := [
+  .newBundle [] [66], .newCategory [[66]] [99], .post [[66], [99]] 0 (artA 1), .post [[66], [99]] 1 (artA 2),
+  .newBundle [[66]] [101], .newCategory [[66], [101]] [102], .delArticle [[66], [99]] 2, .post [[66], [120]] 0 (artA 5)]
+def histReloaded : List Op := [
+  .newBundle [] [66], .reload, .newCategory [[66]] [99], .post [[66], [99]] 0 (artA 1), .reload, .reload, .post [[66], [99]] 1 (artA 2),
+  .newBundle [[66]] [101], .reload, .newCategory [[66], [101]] [102], .delArticle [[66], [99]] 2, .post [[66], [120]] 0 (artA 5), .reload]
+example : WithReloads histPlain histReloaded :=
+  .keep _ (.ins (.keep _ (.keep _ (.ins (.ins (.keep _ (.keep _ (.ins (.keep _ (.keep _ (.keep _ (.ins .nil))))))))))))
+example : Synced cdT s0 := rfl
+example : NoOrphan cdT s0 histPlain := by decide
+example : (run cdT s0 histReloaded).mem.toList = (run cdT s0 histPlain).mem.toList ∧ (run cdT s0 histReloaded).disk.toList = (run cdT s0 histPlain).disk.toList := by decide
+-- a bundle created, the file reloaded while it is empty, a category created inside it: it is there
+example : ((run cdT s0 histReloaded).mem.get [[66], [101], [102]]).map Cat.ty = some 3 := by decide
+-- a reply to a missing parent is exactly what the hypothesis excludes
+example : OrphanReply (run cdT s0 (hist.take 5)) (.post [[66], [99]] 9 (artA 4)) := by decide
+example : (drun cdT (AMap.empty : Tree) ⟨s0, false⟩ [.restart true, .req (.newCategory [] [99]), .req (.post [[99]] 0 (artA 1)), .restart true,
+    .req (.post [[99]] 1 (artA 2)), .restart false]).st.disk.toList = (run cdT s0 [.newCategory [] [99], .post [[99]] 0 (artA 1), .post [[99]] 1 (artA 2)]).disk.toList := by decide
+example : (postRequest [0, 1, 0, 0, 1, 99] [0, 0] [84] [98, 111, 100, 121]).Perm
+    [⟨333, [98, 111, 100, 121]⟩, ⟨325, [0, 1, 0, 0, 1, 99]⟩, ⟨327, textPlain⟩, ⟨328, [84]⟩, ⟨326, [0, 0]⟩] := by decide
+
+/-! ### Obligation over the regenerated shape of the `-init` block (cmd/mobius-hotline-server/main.go) -/
+
+def guardFact (k : String) : String := ((Generated.initGuard.find? (·.1 = k)).map (·.2)).getD ""
+
+/-- The model's `Deploy.initialised` is ONE flag: "config.yaml exists in the configuration directory".  That is
+    what the code does iff the directory whose `config.yaml` the `-init` guard stats is the `-config` directory,
+    which is also the directory the template is copied over, the configuration is loaded from and
+    ThreadedNews.yaml is loaded from; and the copy happens only when the stat says "does not exist", in one place. -/
+theorem init_guard_is_the_models :
+    Generated.initGuardProblems = [] ∧
+    guardFact "config_flag_var" ≠ "" ∧ guardFact "stat_dir" = "*" ++ guardFact "config_flag_var" ∧
+    guardFact "copy_dst" = guardFact "stat_dir" ∧ guardFact "mkdir" = guardFact "stat_dir" ∧
+    guardFact "config_dir" = guardFact "stat_dir" ∧ guardFact "news_dir" = guardFact "stat_dir" ∧
+    guardFact "stat_file" = guardFact "config_file" ∧ guardFact "copy_when" = "os.IsNotExist(err)" ∧
+    guardFact "news_file" = "ThreadedNews.yaml" := by decide
 
 end Mobius.C18
